@@ -203,3 +203,13 @@ Proof.
       eapply RD_mono; [| | |exact HRD]; [lia|intros x Hx; right; exact Hx|apply incl_refl].
     + exists RErrOther, (inc_stable e true). split; [reflexivity|]. right. split; [discriminate|reflexivity].
 Qed.
+
+Lemma Mode_seal c nb w d nom defer : Seal c nb w d -> sp_of (sh d) = nom -> Mode c nb w d nom defer.
+Proof.
+  intros HS Hsp. right. destruct HS as (tw & A & B & C & HL & HN). split; [apply (LInv_closed _ _ _ _ HL)|].
+  right. left. split; [exists tw; auto|exact Hsp].
+Qed.
+
+Lemma RD_seal c nb w d alts defer : Seal c nb w d -> In (sp_of (sh d)) alts -> RD c nb d alts defer.
+Proof. intros (tw & A & B & C & HL & HN) Hin. eapply RD_of_clean; eauto. Qed.
+
